@@ -331,6 +331,86 @@ def gen_swap(r, i):
     return {"kind": "history", "i": i, "tree": tree, "lookups": lookups, "etc": [], "spine_dev": 1}
 
 
+def proper_prefixes(full):
+    parts = full.split(".")
+    return [".".join(parts[:k]) for k in range(1, len(parts))]
+
+
+def gen_index_view(r, i):
+    """Targets whose databases have IDENTICAL known imports but differ only in what the index must hide
+    (a forget of a DERIVED parent-package entry), or only in mandatory / canonical entries: anything that
+    is remembered per known-set (instead of per database) shows up in one of the two orders."""
+    base = r.sample([["corp.pkg.thing", "thing"], ["pk.sub.mod", "pk.sub.mod"], ["q.r.s.t", "q.r.s.t"],
+                     ["os.path.join", "join"], ["m.sub.t2", "t2"]], r.randint(1, 3))
+    derived = sorted({p for f, _ in base for p in proper_prefixes(f)})
+
+    def overlay():
+        k = r.random()
+        if k < .55:
+            return [["forget", [[p, p] for p in r.sample(derived, r.randint(1, min(2, len(derived))))]]]
+        if k < .7:
+            return [["mand", [r.choice(MAND_POOL)]]]
+        if k < .85:
+            return [["canon", [r.choice(CANON_POOL)]]]
+        if k < .93:
+            return [["forget", [["absent.mod", "mod"]]]]
+        return []
+    def f(stmts):
+        return {"dev": 1, "file": {"stmts": stmts, "ident_form": False}}
+    tree = {"dev": 1, "dir": {"home": {"dev": 1, "dir": {}},
+                              ".pyflyby": f([["imp", b] for b in base]),
+                              "a": {"dev": 1, "dir": {".pyflyby": f(overlay()),
+                                                      "b": {"dev": 1, "dir": {".pyflyby": f(overlay())}}}},
+                              "c": {"dev": 1, "dir": {".pyflyby": f(overlay())}},
+                              "d": {"dev": 1, "dir": {}}}}
+    targets = ["{ROOT}/t.py", "{ROOT}/a/t.py", "{ROOT}/a/b/t.py", "{ROOT}/c/t.py", "{ROOT}/d/t.py"]
+    seq = [r.choice(targets) for _ in range(r.randint(2, 4))]
+    if len(set(seq)) == 1:
+        seq[-1] = r.choice([t for t in targets if t != seq[0]])
+    lookups = [{"cwd": "d", "home": "{ROOT}/home", "target": t, "env": [None, None, None]} for t in seq]
+    return {"kind": "history", "i": i, "tree": tree, "lookups": lookups, "etc": [], "spine_dev": 1}
+
+
+LONG_CH = "abcdefghijklmnopqrstuvwxyzABCDEFGHIJKLMNOPQRSTUVWXYZ0123456789_=+{},@-"
+
+
+def gen_deep(r, i):
+    """Long absolute paths: components up to 255 bytes, total length beyond 255 / 1024 characters (NAME_MAX is
+    per component, PATH_MAX is 4096): nothing on the database path may depend on the length of a name."""
+    depth = r.randint(2, 6)
+    tree = {"dev": 1, "dir": {"home": {"dev": 1, "dir": {}}}}
+    if r.random() < .7:
+        tree["dir"][".pyflyby"] = {"dev": 1, "file": gen_spec(r, rich=False)}
+    node, rel, dirs = tree, "", [""]
+    for lvl in range(depth):
+        ln = r.choice([40, 90, 120, 200, 250, 255])
+        name = "".join(r.choice(LONG_CH) for _ in range(ln - 1)) + "x"
+        if name[0] in "-":
+            name = "d" + name[1:]
+        ch = {"dev": 1, "dir": {}}
+        node["dir"][name] = ch
+        rel = (rel + "/" if rel else "") + name
+        dirs.append(rel)
+        node = ch
+        k = r.random()
+        if k < .45:
+            node["dir"][".pyflyby"] = {"dev": 1, "file": gen_spec(r, rich=False)}
+        elif k < .8:
+            pd = node["dir"][".pyflyby"] = {"dev": 1, "dir": {}}
+            for nm in r.sample(["x.py", "sub/z.py", "y" * r.choice([50, 200, 251]) + ".py", "notes.txt"], r.randint(1, 3)):
+                put(pd, nm, {"dev": 1, "file": gen_spec(r, rich=False)}, 1)
+        if r.random() < .25:
+            put(node, EXTRA + "/e.py", {"dev": 1, "file": gen_spec(r, rich=False)}, 1)
+    lookups = []
+    for _ in range(r.randint(1, 3)):
+        d = r.choice(dirs[1:] + [dirs[-1]] * 3)
+        lookups.append({"cwd": r.choice(dirs), "home": "{ROOT}/" + r.choice(["home", dirs[-1]]),
+                        "target": "{ROOT}/" + d + r.choice(["/t.py", "/t.py", "/no/such/t.py", "", "/" + "t" * 250 + ".py"]),
+                        "env": [r.choice([None, None, ".../.pyflyby", "./.pyflyby:-", "{ROOT}/" + dirs[-1] + "/.pyflyby",
+                                          ".../" + EXTRA + ":~/.pyflyby", "./" + EXTRA]), None, None]})
+    return {"kind": "history", "i": i, "tree": tree, "lookups": lookups, "etc": [], "spine_dev": 1}
+
+
 def gen_partition(r, i):
     """Device boundaries on purpose: a chain of directories with a database at every level, st_dev
     chosen per level (1-2-1 patterns, boundary at the scratch root, boundary above a missing target)."""
@@ -389,8 +469,12 @@ def gen_cases(ctx, n):
     for i in range(n):
         r = cm.rng(ctx.seed, "c12", i)
         k = i % 20
-        if k < 13:
+        if k < 11:
             cases.append(gen_history(r, i))
+        elif k < 12:
+            cases.append(gen_index_view(r, i))
+        elif k < 13:
+            cases.append(gen_deep(r, i))
         elif k < 14:
             cases.append(gen_swap(r, i))
         elif k < 16:
@@ -934,6 +1018,9 @@ def compare(ctx, cases, impl, index, model):
                 ctx.bump("files_loaded_%s" % min(len(s["files"]), 5))
                 if any(fs.resolve(f, False) != f for f in s["files"]):
                     ctx.bump("loaded_through_symlink")
+                mx = max([len(f) for f in s["files"]] or [0])
+                if mx > 255:
+                    ctx.bump("loaded_path_longer_than_1024" if mx > 1024 else "loaded_path_longer_than_255")
             if s["kind"] != "err" and s["forget"]:
                 ctx.bump("db_with_forget")
         nontriv = "hit" in kinds and any(s["kind"] != "err" and s["known"] for s in im["cached"])
@@ -945,7 +1032,7 @@ def compare(ctx, cases, impl, index, model):
 def run(ctx):
     cm.check_anchors(ctx, ANCHORS)
     n = int(os.environ.get("VERIF_C12_N", (400 if ctx.quick else 4000) * getattr(ctx, "scale", 1)))
-    ctx.coverage["rule"] = ("cases from one seeded PRNG: 65% lookup histories (55% of the trees with symbolic links: to directories and files, relative/absolute, dangling, looping) + 5% cwd/HOME-exchange histories + 10% device-boundary chains (1-4 lookups; cwd, HOME, target and the three "
+    ctx.coverage["rule"] = ("cases from one seeded PRNG: 5% same-known-imports/different-forget-of-derived-entries histories + 5% deep trees with absolute paths of 300-1500 characters + 55% lookup histories (55% of the trees with symbolic links: to directories and files, relative/absolute, dangling, looping) + 5% cwd/HOME-exchange histories + 10% device-boundary chains (1-4 lookups; cwd, HOME, target and the three "
                             "environment variables change between lookups) in generated trees with .pyflyby files/dirs at several "
                             "levels, hidden/__pycache__/unsafe entries, device boundaries; 15% in-memory compositions (+ __or__); "
                             "5% _find_etc_dirs trees; thorough adds all sequences up to length 4 over 5 queries on 2 trees; "
